@@ -154,8 +154,6 @@ def run(ctx):
     ctx.assumptions += ["theorems quantify over files holding at least one event whose configuration records particles for every event (the reader needs the particles group)",
                         "FileGenerator.count is modelled with exact integer arithmetic; the code's floating-point (k+1)/n*T may be one lower mid-file, so the correspondence accepts model or model-1 for intermediate counts; the count after each file is exact and proved",
                         "Particle objects rebuilt by FileGenerator are compared field by field with the particle that was written (python side); the model carries only the tag"]
-    ctx.partial += ["filegen_replays (full FileGenerator replay over several files: C12_proofs.filegen_replays_statement is stated, not proved; "
-                    "proved part: filegen_chunk_partial + getitem_slice_eq_spec; the whole statement is checked by correspondence on real files)"]
     ok = ctx.coq_build(PROP)
     changed, cur = ioc.pins_changed(common.REPO, common.ROOT)
     ctx.extra["ast_pins_changed"] = changed
